@@ -13,29 +13,29 @@ Definition len32 (H : hashfn) : Prop := forall a b h s, length (H a b h s) = 32%
 (** ---- completeness ---- *)
 
 Theorem complete_tree : forall (H : hashfn), len32 H ->
-  forall pf t k v p,
+  forall pf t k v p, sized t ->
     t_construct H pf (Some t) k = Some (v, p) ->
     In (k, v) (elements t) /\
     pf_root p = root_hash H pf t /\
     verify H p k v (root_hash H pf t) = true /\
     verify_kv H (root_hash H pf t) k v (pf_inner p) = true.
 Proof.
-  intros H HL pf t k v p C. unfold t_construct in C.
+  intros H HL pf t k v p Hs C. unfold t_construct in C.
   destruct (construct H (at_root pf) t k) as [[[v0 lh] pi]|] eqn:Cn; [|discriminate].
   inversion C; subst; clear C. simpl.
-  destruct (complete H HL _ _ _ _ _ _ Cn) as [V1 V2].
+  destruct (complete H HL _ _ _ _ _ _ Hs Cn) as [V1 V2].
   split; [eapply construct_in; eauto|]. split; [reflexivity|]. split; assumption.
 Qed.
 
 Theorem complete_present : forall (H : hashfn), len32 H ->
-  forall pf t k v, ordered t -> In (k, v) (elements t) ->
+  forall pf t k v, ordered t -> sized t -> In (k, v) (elements t) ->
     exists p, t_construct H pf (Some t) k = Some (v, p) /\
               verify_kv H (root_hash H pf t) k v (pf_inner p) = true.
 Proof.
-  intros H HL pf t k v Ho I.
+  intros H HL pf t k v Ho Hs I.
   destruct (construct_present H t Ho (at_root pf) k v I) as (lh & pi & C).
   exists (mk_proof lh pi (root_hash H pf t)). unfold t_construct. rewrite C. split; [reflexivity|].
-  simpl. apply (complete H HL _ _ _ _ _ _ C).
+  simpl. apply (complete H HL _ _ _ _ _ _ Hs C).
 Qed.
 
 Theorem absent_no_proof : forall (H : hashfn) pf t k,
@@ -49,29 +49,26 @@ Qed.
 (** ---- soundness, injective form ---- *)
 
 Theorem sound_inj : forall (H : hashfn), len32 H -> injective4 H ->
-  forall pf t k v pi, sized t -> no_confusable (elements t) = true ->
+  forall pf t k v pi, sized t ->
     verify_kv H (root_hash H pf t) k v pi = true -> In (k, v) (elements t).
 Proof.
-  intros H HL Inj pf t k v pi Hs Hg V.
-  destruct (sound H HL _ _ _ _ _ Hs Hg V) as [I|C]; [exact I|].
+  intros H HL Inj pf t k v pi Hs V.
+  destruct (sound H HL _ _ _ _ _ Hs V) as [I|C]; [exact I|].
   exfalso. eapply injective_no_collision; eauto.
 Qed.
 
-(** the statement without the guard *)
-Definition sound_full : Prop :=
-  forall (H : hashfn), len32 H -> injective4 H ->
-  forall pf t k v pi, sized t ->
-    verify_kv H (root_hash H pf t) k v pi = true -> In (k, v) (elements t).
-
-Theorem sound_full_refuted : ~ sound_full.
+(** both forgeries of the fixed finding C03-leaf-inner-confusion, in any
+    position of a supplied proof: rejected *)
+Theorem confusion_rejected : forall (H : hashfn), len32 H ->
+  forall pf k v front back,
+    (forall k0, verify_kv H (digest H pf (Leaf k0 (leaf_hash H k v))) k v
+                  (front ++ mk_pnode 0 1 k0 [] :: back) = false) /\
+    (forall v0, verify_kv H (digest H pf (Leaf (leaf_hash H k v) v0)) k v
+                  (front ++ mk_pnode 0 1 [] v0 :: back) = false).
 Proof.
-  intro F.
-  pose (k := [1%N]). pose (v := [2%N]). pose (k0 := [3%N]).
-  assert (V : verify_kv H_ideal (root_hash H_ideal no_pfx (Leaf k0 (leaf_hash H_ideal k v))) k v
-                [mk_pnode 0 1 k0 []] = true).
-  { apply (leaf_inner_confusion_value H_ideal H_ideal_len); [discriminate|simpl; lia]. }
-  apply (F H_ideal H_ideal_len H_ideal_inj) in V; [|exact I].
-  simpl in V. destruct V as [E|[]]. inversion E.
+  intros H HL pf k v front back. split; intros.
+  - apply confusion_rejected_value; assumption.
+  - apply confusion_rejected_key; assumption.
 Qed.
 
 (** ---- examples: the hypotheses are satisfiable by non-trivial states ---- *)
@@ -80,10 +77,9 @@ Definition ex_tree : tree :=
   Node [98%N] 2 3 (Leaf [97%N] [1%N])
        (Node [99%N] 1 2 (Leaf [98%N] [2%N]) (Leaf [99%N] [3%N; 4%N])).
 
-Example ex_tree_good :
-  ordered ex_tree /\ sized ex_tree /\ no_confusable (elements ex_tree) = true.
+Example ex_tree_good : ordered ex_tree /\ sized ex_tree.
 Proof.
-  split; [|split; [|reflexivity]].
+  split.
   - cbn [ordered ex_tree keys elements map app fst leftmost].
     split; [exact I|]. split.
     { split; [exact I|]. split; [exact I|]. split.
@@ -108,9 +104,19 @@ Example ex_proof_verifies :
   end = true.
 Proof. vm_compute. reflexivity. Qed.
 
-(** a guarded state with a hash-sized value (not confusable: the key is long) *)
-Example ex_guard_hash_value :
-  no_confusable [(repeat 7%N 40, repeat 9%N 32)] = true /\
-  confusable [3%N] (repeat 9%N 32) = true /\ confusable (repeat 9%N 32) [1%N] = true /\
-  confusable (repeat 7%N 33) (repeat 9%N 32) = false /\ confusable [] (repeat 9%N 32) = false.
-Proof. repeat split. Qed.
+(** the former witness of the finding: the single leaf ("cfg-hash"-like short
+    key, value = leaf digest of the forged pair) is a sized tree, the forged
+    chain does end in its root, and the verifier rejects the forged proof *)
+Example ex_confusion_rejected :
+  let k := [1%N] in let v := [2%N] in let k0 := [3%N] in
+  let t := Leaf k0 (leaf_hash H_ideal k v) in
+  sized t /\ ~ In (k, v) (elements t) /\
+  chain H_ideal (leaf_hash H_ideal k v) [mk_pnode 0 1 k0 []] = root_hash H_ideal no_pfx t /\
+  verify_kv H_ideal (root_hash H_ideal no_pfx t) k v [mk_pnode 0 1 k0 []] = false.
+Proof.
+  cbv zeta. split; [exact I|]. split.
+  { simpl. intros [E|[]]. inversion E. }
+  split.
+  - apply (confusion_chain_value H_ideal H_ideal_len); [discriminate|simpl; lia].
+  - apply (confusion_rejected_value H_ideal H_ideal_len no_pfx [1%N] [2%N] [3%N] [] []).
+Qed.
